@@ -90,6 +90,11 @@ func (fv *FV) execCall(fr *Frame, st *State, x *ssa.Call) []Outcome {
 	}
 	switch callee := common.Value.(type) {
 	case *ssa.Builtin:
+		if callee.Name() == "append" && fv.l.mode == ModeInt {
+			if t, ok := args[1].(SliceV); ok {
+				return fv.appendCases(st, args[0].(SliceV), t, argTypes[0].Underlying().(*types.Slice).Elem(), x)
+			}
+		}
 		res := fv.builtin(fr, st, callee, args, argTypes, x)
 		return []Outcome{{st: st, results: unwrap(res)}}
 	case *ssa.Function:
@@ -1161,4 +1166,76 @@ func truncate(s string, n int) string {
 		return s[:n] + "..."
 	}
 	return s
+}
+
+
+// appendCases models append by case distinction (nothing appended / fits in place / reallocation), one path each,
+// so that the resulting slice and memory are ite-free on every path.
+func (fv *FV) appendCases(st *State, s, t SliceV, et types.Type, x ssa.Instruction) []Outcome {
+	n := t.Len
+	if n.Op == "int" && n.Int.Sign() == 0 {
+		return []Outcome{{st: st, results: []Value{s}}}
+	}
+	cs := fv.l.comps(et)
+	if cs == nil {
+		fv.fail("append of composite elements unsupported")
+	}
+	newLen := Add(s.Len, n)
+	fits := Le(newLen, s.Cap)
+	empty := Eq(n, IntLit(0))
+	var outs []Outcome
+	// case 1: nothing to append
+	if !empty.IsFalse() {
+		st1 := st.clone()
+		st1.assume(empty)
+		outs = append(outs, Outcome{st: st1, results: []Value{s}})
+	}
+	// case 2: in place
+	{
+		st2 := st.clone()
+		st2.assume(Not(empty))
+		st2.assume(fits)
+		fv.frameCheck(st2, s.Arr, true, Add(s.Off, s.Len), Add(Add(s.Off, s.Len), n), x, x.Pos())
+		fv.nfresh++
+		j := BoundVar(fmt.Sprintf("j!ap%d", fv.nfresh), IntSort)
+		lo := Add(s.Off, s.Len)
+		for k, c := range cs {
+			srow := st2.heap.elemRow(c.sort, k, s.Arr)
+			trow := st2.heap.elemRow(c.sort, k, t.Arr)
+			row := fv.fresh("approw", ArraySort(IntSort, c.sort))
+			q := Forall([]*Term{j}, Eq(Select(row, j), Ite(And(Le(lo, j), Lt(j, Add(lo, n))), Select(trow, Add(t.Off, Sub(j, lo))), Select(srow, j))))
+			if q.Op == "forall" {
+				q.Pats = [][]*Term{{Select(row, j)}}
+			}
+			st2.assume(q)
+			st2.heap.setElemRow(c.sort, k, s.Arr, row)
+		}
+		outs = append(outs, Outcome{st: st2, results: []Value{SliceV{Arr: s.Arr, Off: s.Off, Len: newLen, Cap: s.Cap}}})
+	}
+	// case 3: reallocation
+	{
+		st3 := st.clone()
+		st3.assume(Not(empty))
+		st3.assume(Not(fits))
+		newArr := Obj(st3.wm)
+		st3.wm = Add(st3.wm, IntLit(1))
+		newCap := fv.fresh("appendcap", IntSort)
+		st3.assume(And(Ge(newCap, newLen), Le(newCap, IntLit(maxSliceCap)))) // the allocation succeeded
+		fv.nfresh++
+		j := BoundVar(fmt.Sprintf("j!ap%d", fv.nfresh), IntSort)
+		for k, c := range cs {
+			srow := st3.heap.elemRow(c.sort, k, s.Arr)
+			trow := st3.heap.elemRow(c.sort, k, t.Arr)
+			row := fv.fresh("appnew", ArraySort(IntSort, c.sort))
+			q := Forall([]*Term{j}, Implies(And(Le(IntLit(0), j), Lt(j, newLen)),
+				Eq(Select(row, j), Ite(Lt(j, s.Len), Select(srow, Add(s.Off, j)), Select(trow, Add(t.Off, Sub(j, s.Len)))))))
+			if q.Op == "forall" {
+				q.Pats = [][]*Term{{Select(row, j)}}
+			}
+			st3.assume(q)
+			st3.heap.setElemRow(c.sort, k, newArr, row)
+		}
+		outs = append(outs, Outcome{st: st3, results: []Value{SliceV{Arr: newArr, Off: IntLit(0), Len: newLen, Cap: newCap}}})
+	}
+	return outs
 }
